@@ -18,6 +18,7 @@ from vf.model.db import ModelDB, View
 from vf.obscheck import canon_real, norm_path, strip_ghost_tags, QUIRK_KEYS
 from vf.observe import observe
 
+ID = 'C04'
 RULE = ('one case = one universe of 9 related lexicons x one selection S (1-3 lexicons) x one expand setting, observed in three '
         'databases (insiders only / plus outsiders / outsiders removed again); distinct = universe seed + S + expand; non-trivial = '
         'at least one outsider was added that collides with an insider in identifiers or is an unselected extension of a member of S')
@@ -33,7 +34,7 @@ SELECTIONS = [
 
 
 def plan(tier, seed):
-    return [{'seed': seed * 1000003 + i // len(SELECTIONS), 'sel': i % len(SELECTIONS)} for i in range(N[tier])]
+    return [{'seed': seed * 1000003 + i // len(SELECTIONS), 'sel': i % len(SELECTIONS)} for i in range(N[tier])] + [{'kind': 'pytest-under-contracts', 'seed': 0}]
 
 
 def closure_bases(names, u):
@@ -53,6 +54,9 @@ def closure_bases(names, u):
 
 
 def run_case(case, rec):
+    if case.get('kind') == 'pytest-under-contracts':
+        from vf import contracts_case
+        return contracts_case.run(rec, ID)
     import wn
     r = random.Random(case['seed'])
     u = universe.make(r)
